@@ -89,6 +89,24 @@ def _run(cmd, timeout, log):
     return p, dt
 
 
+def _with_includes(src):
+    """src plus the text of the prelude headers it includes (declarations of stubs live there)."""
+    out = [src]
+    seen = set()
+    todo = re.findall(r'#include "([^"]+)"', src)
+    while todo:
+        h = todo.pop()
+        if h in seen:
+            continue
+        seen.add(h)
+        fp = os.path.join(PRELUDE, h)
+        if os.path.exists(fp):
+            t = open(fp).read()
+            out.append(t)
+            todo += re.findall(r'#include "([^"]+)"', t)
+    return "\n".join(out)
+
+
 def scan_assumes(src):
     """Mechanical scan: every __CPROVER_assume in the generated text."""
     return sorted(set(m.group(0) for m in re.finditer(r"__CPROVER_assume\s*\([^;]*;", src)))
@@ -128,7 +146,7 @@ def run_unit(u, repo=None, keep_trace=True):
         for r in u.replace:
             # a callee that the (possibly edited) body no longer calls is dropped by goto-cc and
             # would crash goto-instrument; it then needs no replacement
-            if len(re.findall(r"\b%s\s*\(" % re.escape(r), src)) >= 2:
+            if len(re.findall(r"\b%s\s*\(" % re.escape(r), _with_includes(src))) >= 2:
                 cmd += ["--replace-call-with-contract", r]
         if u.loop_contracts:
             cmd += ["--apply-loop-contracts"]
